@@ -1033,14 +1033,18 @@ pub fn swarm_for(profile: &str, rng: &mut Rng, thorough: bool) -> Swarm {
             sw.p_autoinc = 100;
             sw.w.insert = 40;
             sw.w.delete = 12;
-            sw.w.begin = 4;
-            sw.w.commit = 2;
+            sw.w.begin = 5;
+            sw.w.commit = 5;
             sw.w.rollback = 4;
             sw.w.savepoint = 2;
             sw.w.rollback_to = 2;
             sw.w.close_reopen = 3;
-            sw.w.drop_reopen = 2;
+            sw.w.drop_reopen = 5;
             sw.w.checkpoint = 1;
+            if rng.chance(2, 3) {
+                // the counter lives in the table header: its way through the log matters
+                sw.cfg = DbConfig::durable();
+            }
         }
         "ddl" => {
             sw.w.create_table = 8;
